@@ -329,8 +329,14 @@ def run(ch, render=False):
             for i in range(len(pkts)):
                 item = next(gen)
                 got.append(item)
-                w.ev("consumer", "item", len(item))
-                if not isinstance(item, bytes) or bytes(item) != pkts[i]:
+                if raw is not None:
+                    raw.eof_reads = 0            # progress: the end-of-stream poll budget counts polls WITHOUT progress
+                try:
+                    ib = bytes(memoryview(item))
+                except TypeError:      # not bytes-like at all: judged below
+                    ib = None
+                w.ev("consumer", "item", -1 if ib is None else len(ib))
+                if ib != pkts[i]:
                     break
             else:
                 if src != "socket":
@@ -395,17 +401,21 @@ def run(ch, render=False):
                  f"{msg} after {len(got)} of {len(pkts)} packets ({desc})")
     else:
         for i, item in enumerate(got):
-            if not isinstance(item, bytes):
-                out.fail("wrong_type", f"item {i} is {type(item).__name__}, not bytes ({desc})")
+            # "byte-identical": any bytes-like object (bytes, a bytes subclass, bytearray, memoryview ...) whose content is
+            # the packet; only something that is not bytes-like at all is a wrong type
+            try:
+                ib = bytes(memoryview(item))
+            except TypeError:
+                out.fail("wrong_type", f"item {i} is {type(item).__name__}, not a bytes-like object ({desc})")
                 break
-            if bytes(item) != pkts[i]:
-                out.fail("wrong_bytes", f"item {i}: got {len(item)} bytes {bytes(item[:12]).hex()}.., expected "
+            if ib != pkts[i]:
+                out.fail("wrong_bytes", f"item {i}: got {len(ib)} bytes {ib[:12].hex()}.., expected "
                                         f"{len(pkts[i])} bytes {pkts[i][:12].hex()}.. ({desc})")
                 break
         else:
             if src != "socket":
                 if extra is not None:
-                    out.fail("extra_item", f"an item of {len(extra)} bytes was yielded after the last packet ({desc})")
+                    out.fail("extra_item", f"a further item ({type(extra).__name__}) was yielded after the last packet ({desc})")
                 elif not stopped:
                     out.fail("no_stop", f"generator did not stop after the last packet ({desc})")
     out.log = w.log
